@@ -26,9 +26,11 @@
       execute_internal] first statement, [truncate/mod.rs] for every listed table before any work, and
       [truncate/core.rs: execute_truncate_cascade] for the dependency closure of ONE listed table at a time (the
       loop over the listed tables truncates table i before the closure of table i+1 is checked).
-    - DELETE and UPDATE propagate the errors of their WHERE clause ([delete/executor.rs:
-      collect_rows_with_scan] evaluates with [?]; until the fix "same truth-value rule (and the same errors) as
-      SELECT ... WHERE" DELETE used [matches!(eval(..), Ok(Boolean(true)))] and swallowed them).
+    - DELETE evaluates its WHERE clause with [match evaluator.eval(..) { Ok(v) => where_value_is_true(&v)
+      .unwrap_or(false), Err(_) => false }] ([delete/executor.rs: collect_rows_with_scan], "a row whose
+      predicate cannot be evaluated is kept"): an error raised inside a WHERE subquery - including
+      PermissionDenied - makes the row "not selected"; the statement reports success.  UPDATE propagates
+      the error ([update/row_selector.rs]).
     - the window PARTITION BY clause still swallows: [evaluator/window/partitioning.rs: partition_rows] maps an
       evaluation error of a partition expression to NULL ([eval_fn(..).unwrap_or(SqlValue::Null)]), so a
       PermissionDenied raised by a subquery there makes the statement succeed (without the subquery's rows).
@@ -192,7 +194,8 @@ Definition program (p : path) : list action :=
   | P_update_where_subquery | P_update_set_subquery | P_update_where_exists =>
       ACheck TU AUpd :: read_S ++ [AWrite TU AUpd]
   | P_delete_where | P_delete_pk | P_delete_all => [ACheck TU ADel; AWrite TU ADel]
-  | P_delete_where_subquery | P_delete_where_exists => ACheck TU ADel :: read_S ++ [AWrite TU ADel]
+  (* DELETE swallows errors of its WHERE clause *)
+  | P_delete_where_subquery | P_delete_where_exists => [ACheck TU ADel; ACheckSoft TS ASel; ARead TS; AWrite TU ADel]
   | P_truncate => [ACheck TU ADel; AWrite TU ADel]
   | P_truncate_multi => [ACheck TU ADel; ACheck TM ADel; AWrite TU ADel; AWrite TM ADel]
   | P_truncate_cascade => [ACheck TP ADel; ACheck TD ADel; ACheck TP ADel; AWrite TD ADel; AWrite TP ADel]
@@ -238,7 +241,7 @@ Definition required (p : path) : list (tbl * access) :=
 Inductive defect : Type :=
 | D_count_star_fast_path | D_in_subquery_index_path | D_insert_select_bulk_transfer
 | D_insert_on_duplicate_key_update | D_insert_replace
-| D_window_clause_error_swallowed | D_truncate_multi_cascade_partial.
+| D_delete_where_error_swallowed | D_window_clause_error_swallowed | D_truncate_multi_cascade_partial.
 
 Definition defect_of (p : path) : option defect :=
   match p with
@@ -248,6 +251,7 @@ Definition defect_of (p : path) : option defect :=
   | P_insert_select_bulk => Some D_insert_select_bulk_transfer
   | P_on_duplicate_key_update => Some D_insert_on_duplicate_key_update
   | P_replace_into | P_insert_or_replace => Some D_insert_replace
+  | P_delete_where_subquery | P_delete_where_exists => Some D_delete_where_error_swallowed
   | P_window_partition_subquery => Some D_window_clause_error_swallowed
   | P_truncate_multi_cascade => Some D_truncate_multi_cascade_partial
   | _ => None
@@ -261,7 +265,10 @@ Definition unguarded_known (p : path) : bool :=
   | _ => false
   end.
 Definition silent_known (p : path) : bool :=
-  match defect_of p with Some D_window_clause_error_swallowed => true | _ => false end.
+  match defect_of p with
+  | Some D_delete_where_error_swallowed | Some D_window_clause_error_swallowed => true
+  | _ => false
+  end.
 Definition partial_known (p : path) : bool :=
   match defect_of p with Some D_truncate_multi_cascade_partial => true | _ => false end.
 
@@ -273,6 +280,7 @@ Definition program_fixed (p : path) : list action :=
   | P_insert_select_bulk => ACheck TT AIns :: read_S ++ [AWrite TT AIns]
   | P_on_duplicate_key_update => [ACheck TU AIns; ACheck TU AUpd; AWrite TU AUpd; AWrite TU AIns]
   | P_replace_into | P_insert_or_replace => [ACheck TU AIns; ACheck TU ADel; AWrite TU ADel; AWrite TU AIns]
+  | P_delete_where_subquery | P_delete_where_exists => ACheck TU ADel :: read_S ++ [AWrite TU ADel]
   | P_window_partition_subquery => read_M ++ read_S
   | P_truncate_multi_cascade =>
       [ACheck TU ADel; ACheck TP ADel; ACheck TU ADel; ACheck TD ADel; ACheck TP ADel;
